@@ -394,8 +394,11 @@ class FnEmitter:
                             k = cl + 1
                             continue
                         else:
-                            # drop the '!' only: name!(E) -> name(E)
+                            # R5: name!(E) -> name(&(E))   (the argument is only borrowed by the macro:
+                            # `$st.chars()` / `$chrs.iter()`; the function takes &str / &[char])
                             edits.append((toks[j].start, toks[j].end, '', None))
+                            edits.append((toks[j2].end, toks[j2].end, '&(', None))
+                            edits.append((toks[cl].start, toks[cl].start, ')', None))
                             self.counts['R5'] = self.counts.get('R5', 0) + 1
             k += 1
 
@@ -708,8 +711,15 @@ def build(unit, repo_root, diff=False, canary=False):
             emit_static(repo, out, parts[1], parts[2], counts, info)
         elif cmd == 'macro':
             emit_macro(repo, out, parts[1], parts[2], info)
-        elif cmd in ('prove', 'stub'):
-            FnEmitter(repo, parts[1], parts[2], cmd, counts, info, canary=canary).emit(out)
+        elif cmd in ('prove', 'stub', 'prove?', 'stub?'):
+            # a trailing '?' marks a function that may be absent (e.g. a helper introduced by a repair)
+            try:
+                FnEmitter(repo, parts[1], parts[2], cmd.rstrip('?'), counts, info, canary=canary).emit(out)
+            except Undecided as e:
+                if cmd.endswith('?') and 'lost anchor' in str(e) and 'not found' in str(e):
+                    info.setdefault('absent', []).append('%s::%s' % (parts[1], parts[2]))
+                else:
+                    raise
         else:
             raise Undecided('bad unit directive: %s' % line)
     if canary == 'A':
